@@ -281,8 +281,6 @@ def scan_stream(ctx, replay=None):
             continue
         what = 'tree: %s | TMPDIR: %s | cwd: %s' % ('; '.join(_dec_items(f['diff'])) or '-', '; '.join(_dec_items(f['tmp'])) or '-', '; '.join(_dec_items(f['cwd'])) or '-')
         text = 'a scan changed the file system (%s). %s' % (what, _tree_text(case, files, defaults))
-        if _rpm_sqlite_class(case, f, files) and ctx.known_finding(SCAN_KEY, text):
-            continue
         if reported < 3:
             reported += 1
             ctx.violation(text, ['# ' + _tree_text(case, files, defaults), '# ' + what, case + '\t' + reply])
